@@ -1780,7 +1780,7 @@ func TestVerifC17(t *testing.T) {
 		"oracle for fidelity is the generator's own AST; the walker's Param for `k: a, b` is compared with the documented equivalent 'a,b'",
 		"builders are driven without a datapath: routing.NewNormalizedProgram (production optimiser list) -> NewRoutingMatcherBuilderFromProgram(bpf=nil) -> BuildUserspace, dns.New; BuildKernspace (kernel map sizes) is not executed, so a program beyond the supported size that contains no domain condition past the limit is only recorded",
 		"a hang is an input not finished after 30 s of wall clock in the child, judged only if reproduced when re-run alone")
-	dir, err := os.MkdirTemp(filepath.Join(vk.VerifDir(), "build", "run"), "c17-*")
+	dir, err := os.MkdirTemp(filepath.Join(vk.BuildDir(), "run"), "c17-*")
 	if err != nil {
 		dir, err = os.MkdirTemp("", "dae-17-run-*")
 		if err != nil {
